@@ -117,6 +117,13 @@ def check_scale(case) -> Outcome:
         _, sdy = two_pass(list(y), ddof)
         if abs(sdy - 1.0) > 1e-9 + 1e-15 * abs(m) / spread:
             out.fail("unit-std", f"{which}({kw}) on {case['x']}: std {sdy}", **feat)
+    # re-applying the recorded statistics to the training vector itself is the same computation: bit-identical
+    if which != "center" or True:
+        fn0 = TRANSFORMS[which]
+        st_copy = {k_: (np.array(v_).copy() if isinstance(v_, np.ndarray) else v_) for k_, v_ in state.items()}
+        y_again = np.asarray(fn0(x, _state=st_copy, **kw), dtype=float)
+        if y_again.shape != y.shape or not np.array_equal(y_again, y, equal_nan=True):
+            out.fail("reapplication-not-identical", f"{which}({kw}) on {case['x']}: second application with the recorded state differs by up to {np.abs(y_again - y).max() if y_again.shape == y.shape else 'shape'}", **feat)
     # follow-up: recorded statistics applied unchanged
     fol = make_vec(case["follow"]) if case.get("follow") else None
     if fol is not None:
@@ -162,6 +169,14 @@ def check_scale(case) -> Outcome:
             tq = 1e-8 * (max(np.abs(ebf).max(), np.abs(eaf).max(), 1.0) + 1e-6 * (abs(m) * 3 + 7) / max(sval, 1e-300))
             if q1.shape != (n, 2) or q2.shape != (len(fol), 2) or not np.allclose(q1, np.column_stack([ea, eb]), rtol=1e-8, atol=tq) or not np.allclose(q2, np.column_stack([eaf, ebf]), rtol=1e-8, atol=tq):
                 out.fail("colliding-quoted-names", f"'{qa} + {qb}' trained on {case['x']} (second column = reversed * 3 + 7), applied to {case['follow']}: columns do not each use their own statistics", **feat)
+        # the transform reached through an attribute path (a module / namespace object in the context)
+        import types
+
+        _ft = types.SimpleNamespace(**{k_: TRANSFORMS[k_] for k_ in ("scale", "center", "standardize")})
+        mm = model_matrix(f"ft.{src} - 1", pd.DataFrame({"x": x}), context={"ft": _ft})
+        a2 = np.asarray(mm.model_spec.get_model_matrix(pd.DataFrame({"x": fol}), context={"ft": _ft}), dtype=float).ravel()
+        if a2.shape != exp2.shape or not np.allclose(a2, exp2, rtol=1e-9, atol=1e-9 * scale_f):
+            out.fail("formula-follow-up", f"ft.{src} (transform called through an attribute path) trained on {case['x']}, applied to {case['follow']}", **feat, attr=True)
         # the transform only inside an interaction of a subset of the fitted spec: the subset still applies the
         # recorded statistics
         w1, w2 = 1.0 + (np.arange(n) % 3), 1.0 + (np.arange(len(fol)) % 2)
@@ -202,7 +217,7 @@ def gen_scale():
             "which": st.sampled_from(["scale", "scale", "center", "standardize"]),
             "center": st.sampled_from([True, True, False, 2.5]),
             "scale": st.sampled_from([True, True, False, 4.0]),
-            "ddof": st.sampled_from([0, 1]),
+            "ddof": st.sampled_from([0, 1, 0, 1, 0.5, 1.5]),
             "follow": st.one_of(st.none(), vec),
         }
     )
